@@ -7,7 +7,8 @@ Statement of the property, clause by clause:
   (a) parsing the dumped text yields a value equal to the original, for any indentation
         C24_string_roundtrip, C24_number_roundtrip, C24_number_value_preserved (the leaf lemmas), C24_roundtrip_load (any
         whitespace as indentation, any delimiter after the value), C24_roundtrip (json::dump(indent)
-        followed by json::parse), C24_fuel_suffices (the model's recursion budget is never the reason),
+        followed by json::parse), C24_fuel_suffices, C24_fuel_never_exhausted (the model's recursion budget is never the reason, for dumped
+        text and for every input text),
         C24_reparse_same_text (the value read back prints the same text and has the same hash)
   (b) the full quantifier of the property also contains NUL bytes, NaN/Inf and empty keys, for which
       the statement is false of the code: C24_roundtrip_full, C24_roundtrip_full_fails,
@@ -21,6 +22,7 @@ correspondence run only (DESIGN section 3: floating point is never reasoned abou
 import OccaProofs.Lemmas.JsonGenTie
 import OccaProofs.Lemmas.JsonRoundtrip
 import OccaProofs.Lemmas.JsonReparse
+import OccaProofs.Lemmas.JsonFuel
 import OccaModel.Hash
 
 namespace Occa.Json.C24
@@ -89,6 +91,11 @@ theorem C24_roundtrip_load (v : Json) (hv : Covered v) (ind cur rest : Bytes) (n
 theorem C24_fuel_suffices (v : Json) (hv : Covered v) (ind cur : Bytes) :
     need v ≤ parseFuel (dump ind cur v).length :=
   fuel_suffices v hv ind cur
+
+/-- for EVERY input text the model's recursion budget is enough: the `fuel` outcome of the model never
+    occurs, so every error the model reports is one of the C++ exceptions -/
+theorem C24_fuel_never_exhausted (s : Bytes) : parse s ≠ .error .fuel :=
+  parse_never_fuel s
 
 /-- clause (a): `json::parse(v.dump(indent))` succeeds and is == v, for every indentation
     (negative = the default 2) and every covered value without NUL bytes -/
